@@ -291,7 +291,23 @@ func corpusFiles() []*descriptorpb.FileDescriptorProto {
 	or := wn.oneofDecl("range")
 	wn.member(or, "range_a", 3, descriptorpb.FieldDescriptorProto_TYPE_BOOL, "")
 	wn.member(or, "range_m", 4, tMsg, ".corpus.nest.Empty")
-	nf.MessageType = append(nf.MessageType, outer.m, empty.m, names.m, wn.m)
+	// a pure namespace message (no fields of its own) whose nested messages use reserved names, and a nested
+	// declaration below depth 2 that itself declares a nested (map entry) message followed by later nested ones
+	space := newMsg("Space", "corpus.nest.Space")
+	coin := newMsg("Coin", "corpus.nest.Space.Coin")
+	coin.field("type", 1, descriptorpb.FieldDescriptorProto_TYPE_STRING, "")
+	coin.field("amount", 2, descriptorpb.FieldDescriptorProto_TYPE_UINT64, "")
+	filter := newMsg("Filter", "corpus.nest.Space.Filter")
+	oh := filter.oneofDecl("has")
+	filter.member(oh, "has_a", 1, descriptorpb.FieldDescriptorProto_TYPE_INT32, "")
+	filter.member(oh, "has_b", 2, descriptorpb.FieldDescriptorProto_TYPE_STRING, "")
+	deep := newMsg("Deep", "corpus.nest.Space.Filter.Deep")
+	deep.mapField("tags", 1, descriptorpb.FieldDescriptorProto_TYPE_STRING, descriptorpb.FieldDescriptorProto_TYPE_INT64, "")
+	deep.field("coin", 2, tMsg, ".corpus.nest.Space.Coin")
+	filter.m.NestedType = append(filter.m.NestedType, deep.m)
+	filter.field("deep", 3, tMsg, ".corpus.nest.Space.Filter.Deep")
+	space.m.NestedType = append(space.m.NestedType, filter.m, coin.m)
+	nf.MessageType = append(nf.MessageType, outer.m, empty.m, names.m, wn.m, space.m)
 	files = append(files, nf)
 	return files
 }
